@@ -290,6 +290,10 @@ class MinFlowDecompCycles(walkmodel.AbstractWalkModelDiGraph):
         # right if every edge carries a flow value (not in node mode, where the connecting edges have none)
         if any(self.flow_attr not in data for _, _, data in self.G.edges(data=True)):
             return None
+        # ... and the largest flow value serves as the bound on how often a weight can be used on an edge, which is
+        # meaningless (and rejected by MinGenSet) when all flow values are below 1
+        if self.w_max < 1:
+            return None
 
         min_gen_set_start_time = time.perf_counter()
         all_weights = list(set({self.G.edges[e][self.flow_attr] for e in self.G.edges() if self.flow_attr in self.G.edges[e]}))
@@ -361,6 +365,8 @@ class MinFlowDecompCycles(walkmodel.AbstractWalkModelDiGraph):
             subset_constraints=self.subset_constraints,
             subset_constraints_coverage=self.subset_constraints_coverage,
             elements_to_ignore=self.edges_to_ignore,
+            additional_starts=self.additional_starts,
+            additional_ends=self.additional_ends,
             optimization_options=given_weights_optimization_options,
             solver_options=given_weights_kfd_solver_options,
             )
